@@ -102,3 +102,110 @@ class osu_rate_scales_preview_point:
             m = _rand_map(rng, OSU)
             m.preview_time = 1234
             yield dict(m=m, by=by)
+
+
+# ----------------------------------------------------------------------------- bounded: charts built in code from integer literals
+
+
+def _int_chart(game, rows):
+    """A chart built the way user code builds one: items with INTEGER literals (so the frames' columns are
+    int64 before the rate change)."""
+    from reamber.base.Hit import Hit
+    from reamber.base.Hold import Hold
+    from reamber.base.Bpm import Bpm
+
+    if game == "base":
+        from reamber.base.Map import Map
+        from reamber.base.lists.notes.HitList import HitList
+        from reamber.base.lists.notes.HoldList import HoldList
+        from reamber.base.lists.BpmList import BpmList
+
+        m = Map()
+        m.hits = HitList([Hit(offset=o, column=c) for o, c in rows["hits"]])
+        m.holds = HoldList([Hold(offset=o, column=c, length=l) for o, c, l in rows["holds"]])
+        m.bpms = BpmList([Bpm(offset=o, bpm=b) for o, b in rows["bpms"]])
+        return m
+    if game == "osu":
+        from reamber.osu.OsuMap import OsuMap
+        from reamber.osu.OsuHit import OsuHit
+        from reamber.osu.OsuHold import OsuHold
+        from reamber.osu.OsuBpm import OsuBpm
+        from reamber.osu.lists.notes.OsuHitList import OsuHitList
+        from reamber.osu.lists.notes.OsuHoldList import OsuHoldList
+        from reamber.osu.lists.OsuBpmList import OsuBpmList
+
+        m = OsuMap()
+        m.hits = OsuHitList([OsuHit(offset=o, column=c) for o, c in rows["hits"]])
+        m.holds = OsuHoldList([OsuHold(offset=o, column=c, length=l) for o, c, l in rows["holds"]])
+        m.bpms = OsuBpmList([OsuBpm(offset=o, bpm=b) for o, b in rows["bpms"]])
+        return m
+    from reamber.sm.SMMap import SMMap
+    from reamber.sm.SMHit import SMHit
+    from reamber.sm.SMHold import SMHold
+    from reamber.sm.SMBpm import SMBpm
+    from reamber.sm.lists.notes.SMHitList import SMHitList
+    from reamber.sm.lists.notes.SMHoldList import SMHoldList
+    from reamber.sm.lists.SMBpmList import SMBpmList
+
+    m = SMMap()
+    m.hits = SMHitList([SMHit(offset=o, column=c) for o, c in rows["hits"]])
+    m.holds = SMHoldList([SMHold(offset=o, column=c, length=l) for o, c, l in rows["holds"]])
+    m.bpms = SMBpmList([SMBpm(offset=o, bpm=b) for o, b in rows["bpms"]])
+    return m
+
+
+def _int_case_fails(case):
+    m = _int_chart(case["game"], case["rows"])
+    by = case["by"]
+    out = []
+    try:
+        r = m.rate(by)
+        if case.get("then") is not None:
+            r = r.rate(case["then"])
+            by = by * case["then"]
+    except Exception as ex:
+        return [("int_typed_chart_rate_raises", f"{type(ex).__name__}: {ex}")]
+    tol = 1e-9
+
+    def close(a, b):
+        return abs(float(a) - float(b)) <= tol * max(1.0, abs(float(b)))
+
+    for (o, c), (_, row) in zip(case["rows"]["hits"], r.hits.df.iterrows()):
+        if not close(row["offset"], o / by) or row["column"] != c:
+            out.append(("int_typed_times_divided", f"hit ({o},{c}) rate {by}: offset {row['offset']} want {o / by}"))
+            break
+    for (o, c, l), (_, row) in zip(case["rows"]["holds"], r.holds.df.iterrows()):
+        if not close(row["offset"], o / by) or not close(row["length"], l / by):
+            out.append(("int_typed_times_divided", f"hold ({o},{c},{l}) rate {by}: got ({row['offset']},{row['length']}) want ({o / by},{l / by})"))
+            break
+    for (o, b), (_, row) in zip(case["rows"]["bpms"], r.bpms.df.iterrows()):
+        if not close(row["bpm"], b * by) or not close(row["offset"], o / by):
+            out.append(("int_typed_bpm_multiplied", f"bpm ({o},{b}) rate {by}: got ({row['offset']},{row['bpm']}) want ({o / by},{b * by})"))
+            break
+    return out
+
+
+@bounded("C13", note="rate on charts built in code from integer literals (int64 columns): times / r, bpm * r exactly as for float-typed charts; also rate(a).rate(b)")
+def rate_int_typed_charts(rep):
+    rng = rep.rng
+    N = rep.n(150, 2000)
+    rep.bound = f"{N} charts of 3 classes (base Map, OsuMap, SMMap) built from items with integer literals: 1-4 hits, 0-3 holds, 1-2 bpms; rates from (0.3, 0.75, 1.6, 4, 7) and pairs of them"
+    rep.rule = "a case is (class, rows, rate[, second rate]); non-trivial when some rated value is not an integer"
+    for _ in range(N):
+        rows = dict(hits=[(rng.randrange(0, 5000), rng.randrange(0, 4)) for _ in range(rng.randrange(1, 5))],
+                    holds=[(rng.randrange(0, 5000), rng.randrange(0, 4), rng.randrange(1, 900)) for _ in range(rng.randrange(0, 4))],
+                    bpms=[(0, rng.choice([120, 123, 175]))] + ([(rng.randrange(1, 4000), rng.choice([90, 200, 181]))] if rng.random() < 0.5 else []))
+        case = dict(game=rng.choice(["base", "osu", "sm"]), rows=rows, by=rng.choice([0.3, 0.75, 1.6, 4, 7]), then=rng.choice([None, None, 0.75, 1.6]))
+        nontrivial = any((o / case["by"]) != int(o / case["by"]) for o, _ in rows["hits"])
+        rep.case(case, nontrivial=nontrivial)
+        for what, detail in _int_case_fails(case):
+            rep.fail(what, case, detail)
+
+
+from pyvc.bounded import replayer  # noqa: E402
+
+
+@replayer("rate_int_typed_charts")
+def _replay_int(case, what):
+    hit = [d for w, d in _int_case_fails(case) if w == what]
+    return (bool(hit), hit[0] if hit else "passes")
